@@ -240,6 +240,11 @@ Definition range_ok (r : option (Z * Z)) (fmin fmax : Z) : bool :=
 
 Definition vn_fmax (v : vnew) : Z := (vn_f0 v + Z.of_nat (vn_nf v) - 1)%Z.
 
+(* the guard of the frequency-range test in _vnacal_new_get_parameter / _vnacal_new_check_parameter, as
+   coded: `vnp->vn_frequencies_valid && vnp->vn_frequencies > 0` (vnacal_new_alloc accepts 0 frequencies;
+   a vnacal_new_t without frequency points has no range to test against) *)
+Definition vn_ranged (v : vnew) : bool := (vn_fvalid v && (0 <? vn_nf v))%bool.
+
 (* _vnacal_new_get_parameter.  Result: table, vnew, success.  (fix D44: a negative index is
    refused before the hash look-up; as coded it indexes the hash table with a negative number.) *)
 Fixpoint vn_get_param (fuel : nat) (t : ptable) (v : vnew) (h : Z) : ptable * vnew * bool :=
@@ -251,7 +256,7 @@ Fixpoint vn_get_param (fuel : nat) (t : ptable) (v : vnew) (h : Z) : ptable * vn
       match get_param t h with
       | None => (t, v, false)
       | Some (n, p) =>
-        if (vn_fvalid v && negb (range_ok (frange (S (length (pt_slots t))) t n) (vn_f0 v) (vn_fmax v)))%bool
+        if (vn_ranged v && negb (range_ok (frange (S (length (pt_slots t))) t n) (vn_f0 v) (vn_fmax v)))%bool
         then (t, v, false)
         else
           let reg (t1 : ptable) (v1 : vnew) :=
@@ -282,7 +287,7 @@ Fixpoint vn_check_param (fuel : nat) (t : ptable) (v : vnew) (h : Z) : bool :=
       match get_param t h with
       | None => false
       | Some (n, p) =>
-        if (vn_fvalid v && negb (range_ok (frange (S (length (pt_slots t))) t n) (vn_f0 v) (vn_fmax v)))%bool
+        if (vn_ranged v && negb (range_ok (frange (S (length (pt_slots t))) t n) (vn_f0 v) (vn_fmax v)))%bool
         then false
         else match p_kind p with
              | KCorrelated o _ => vn_check_param f t v (Z.of_nat o)
@@ -439,7 +444,10 @@ Fixpoint meas_for (h : nat) (k : nat) (ms : list meas) : list val :=
 Definition write_back (t : ptable) (v : vnew) (h : nat) : ptable :=
   match slot t h with
   | Some p =>
-    let sv := Solved (map (fun i => (vn_f0 v + Z.of_nat i)%Z) (seq 0 (vn_nf v))) (meas_for h (vn_nf v) (vn_meas v)) in
+    (* as coded: with 0 frequencies vpmr_frequency_vector is left NULL, which vnacal_get_parameter_value
+       reads as "unknown parameter value": the parameter is unsolved again *)
+    let sv := if vn_nf v =? 0 then Unsolved
+              else Solved (map (fun i => (vn_f0 v + Z.of_nat i)%Z) (seq 0 (vn_nf v))) (meas_for h (vn_nf v) (vn_meas v)) in
     let k := match p_kind p with
              | KUnknown o _ => KUnknown o sv
              | KCorrelated o _ => KCorrelated o sv
@@ -563,10 +571,14 @@ Definition step_gen (asis : bool) (s : state) (o : op) : state * outcome :=
     match get_new s id with
     | None => (s, mkOut RNoSuch ENone 0)
     | Some v =>
-      if (f0 <? 0)%Z then (s, fail_usage)
+      (* as coded: the loops over the vector (negative / NaN, ascending) and
+         _vnacal_new_check_all_frequency_ranges run only over existing elements: with 0 frequencies nothing
+         is read and the call succeeds whatever pointer it is given *)
+      if ((0 <? vn_nf v) && (f0 <? 0)%Z)%bool then (s, fail_usage)
       else
         let fmax := (f0 + Z.of_nat (vn_nf v) - 1)%Z in
-        if forallb (fun h => range_ok (frange (S (length (pt_slots t))) t h) f0 fmax) (vn_params v)
+        if (negb (0 <? vn_nf v) ||
+            forallb (fun h => range_ok (frange (S (length (pt_slots t))) t h) f0 fmax) (vn_params v))%bool
         then (with_new s t id (Some (mkVN (vn_type v) (vn_dim v) (vn_nf v) true f0 (vn_params v)
                                           (vn_unknowns v) (vn_meas v) (vn_cal v))), ok_int 0)
         else (s, fail_usage)
@@ -591,7 +603,9 @@ Definition step_gen (asis : bool) (s : state) (o : op) : state * outcome :=
     | None => (s, mkOut RNoSuch ENone 0)
     | Some v =>
       if negb (vn_fvalid v) then (s, fail_usage)
-      else if negb oracle_ok then (s, mkOut (RInt (-1)) EDOM 1)
+      (* the numeric part runs once per frequency: without frequency points there is nothing to solve and
+         vnacal_new_solve succeeds whatever standards were given (as coded) *)
+      else if (negb oracle_ok && (0 <? vn_nf v))%bool then (s, mkOut (RInt (-1)) EDOM 1)
       else
         let c := mkCal 0 (type_out (vn_type v)) (vn_dim v) (vn_dim v) (Z.of_nat (vn_nf v))
                        (vn_f0 v) (vn_fmax v) None in
